@@ -1,5 +1,5 @@
 (* Dispatch.v — one Gallina entry point for both evaluators: a protocol line in, a result line out. *)
-From MRS Require Import Model.Base Model.OpsAddress Model.OpsAmount Model.OpsBasic Model.OpsCodec Model.OpsCurve Model.OpsExtra Model.OpsHash Model.OpsJson Model.OpsScan Model.OpsTxId.
+From MRS Require Import Model.Base Model.OpsAddress Model.OpsAmount Model.OpsBasic Model.OpsCodec Model.OpsCurve Model.OpsExtra Model.OpsHash Model.OpsJson Model.OpsRobust Model.OpsScan Model.OpsTxId.
 From Coq Require Import String Ascii.
 Open Scope string_scope.
 
@@ -16,6 +16,7 @@ Definition all_ops : list (string -> list string -> option string) :=
     ops_extra;
     ops_hash;
     ops_json;
+    ops_robust;
     ops_scan;
     ops_txid ].
 
